@@ -16,6 +16,12 @@ Input families beyond the call-indexed fault scripts:
 * the interpreter's environment: part of the scripted histories is run with warnings promoted to errors
   (`warnings.simplefilter("error")`, what `python -W error` / pytest's filterwarnings=error do): same
   observation demanded (the model is asked the same question);
+* the CLASS of the miss: the contract says "get raises CacheGetFailure"; the scripted store raises CacheGetFailure itself, a
+  user subclass of it, or a user subclass that ALSO derives from a builtin exception class (KeyError, LookupError, IndexError,
+  OSError, TimeoutError, RuntimeError, ValueError, TypeError, AttributeError, ... in either base order), wherever the contract
+  lets a miss surface: get after exists() answered True, the read-back get after set, and the get made by the INHERITED
+  Cache.exists of a backend that does not override exists (style "getonly": oracle only, its call log has no exists calls);
+  the model does not distinguish the classes (same observation demanded);
 * two threads asking for the same entry at overlapping times (oracle only: the model is sequential): thread A
   is held at a chosen point of its evaluation (inside a body, or just before one of its backend calls) while
   thread B evaluates the same dataset with the same options (bounded wait: B finishes, or is found blocked),
@@ -77,6 +83,29 @@ LAB_GRAPHS = {
     "labchain": [[("p", 14), ("o", 1)], [("d", 0), ("o", 11)], [("d", 1), ("p", 12)]],
 }
 STYLES = ("direct", "front", "front2", "rewrap")   # how a dataset's backend object reaches the scripted store
+# the class the scripted store raises on a miss: None = labrea.cache.CacheGetFailure itself, "sub" = a user subclass,
+# "<Builtin>" = class Miss(CacheGetFailure, <Builtin>), "<Builtin>-first" = class Miss(<Builtin>, CacheGetFailure)
+MISS_CLASSES = ("sub", "KeyError", "KeyError-first", "LookupError", "IndexError", "OSError", "OSError-first", "TimeoutError",
+                "RuntimeError", "NotImplementedError", "ValueError", "TypeError", "TypeError-first", "AttributeError",
+                "AssertionError", "EOFError", "ArithmeticError")
+MISS_STYLES = STYLES + ("getonly", "getonly")     # "getonly": a delegating backend that inherits Cache.exists (= try get)
+
+
+def make_miss_class(miss):
+    import builtins
+    from labrea.cache import CacheGetFailure
+    if miss is None:
+        return CacheGetFailure
+    if miss == "sub":
+        return type("VerifCacheMiss", (CacheGetFailure,), {})
+    name, _, first = miss.partition("-")
+    base = getattr(builtins, name)
+    if not first:
+        return type("VerifCacheMiss" + name, (CacheGetFailure, base), {})
+
+    def __init__(self, evaluatable, options, cache):
+        CacheGetFailure.__init__(self, evaluatable, options, cache)
+    return type("VerifCacheMiss" + name + "First", (base, CacheGetFailure), {"__init__": __init__})
 # persistent adversaries: behaviour of every exists / get / set call for the whole evaluation
 PHASES = ("BBB", "LFB", "LFM", "LBB", "BFB", "MMM")
 
@@ -147,8 +176,9 @@ class Script:
         return b
 
 
-def make_cache_class():
-    from labrea.cache import Cache, CacheGetFailure
+def make_cache_class(miss=None):
+    from labrea.cache import Cache
+    CacheGetFailure = make_miss_class(miss)      # noqa: N806  (what this store raises on a miss)
 
     class ScriptedCache(Cache):
         """A dict behind the public Cache ABC whose every call first asks the adversary."""
@@ -203,9 +233,10 @@ def make_cache_class():
     return ScriptedCache
 
 
-def make_front_classes():
+def make_front_classes(miss=None):
     """Contract-following composite backends: all storage lives in an inner Cache object."""
     from labrea.cache import Cache, CacheGetFailure
+    own_miss = make_miss_class(miss)
 
     class FrontCache(Cache):
         """Delegates every call; a miss is reported by the inner store's own CacheGetFailure, which simply
@@ -230,18 +261,31 @@ def make_front_classes():
             try:
                 return self.inner.get(evaluatable, options)
             except CacheGetFailure as e:
-                raise CacheGetFailure(evaluatable, options, self) from e
+                raise own_miss(evaluatable, options, self) from e
 
-    return FrontCache, RewrapCache
+    class GetOnlyCache(Cache):
+        """Delegates get and set and INHERITS Cache.exists (documented default: try get, a CacheGetFailure means no)."""
+
+        def __init__(self, inner):
+            self.inner = inner
+
+        def get(self, evaluatable, options):
+            return self.inner.get(evaluatable, options)
+
+        def set(self, evaluatable, options, value):
+            self.inner.set(evaluatable, options, value)
+
+    return FrontCache, RewrapCache, GetOnlyCache
 
 
 class World:
     """One live labrea graph; backends are reset between scenarios (labrea keeps no other state)."""
 
-    def __init__(self, shape, faulty=True, style="direct"):
+    def __init__(self, shape, faulty=True, style="direct", miss=None):
         from labrea import Option, dataset
         self.shape = shape
         self.style = style
+        self.miss = miss
         self.env = None         # interpreter environment of the evaluations (None | "warnings-error")
         self.pair_runs = []     # two-thread steps: (thread, dataset, ok) for every body started
         self.in_body = None     # two-thread steps: hook(thread name, dataset) called when a body starts
@@ -249,8 +293,8 @@ class World:
         self.runs = []
         self.caches = []    # the scripted stores
         self.ds = []
-        cls = make_cache_class() if faulty else None
-        front, rewrap = make_front_classes() if faulty else (None, None)
+        cls = make_cache_class(miss) if faulty else None
+        front, rewrap, getonly = make_front_classes(miss) if faulty else (None, None, None)
         for i, args in enumerate(shape):
             defaults = {}
             for n, a in enumerate(args):
@@ -270,6 +314,8 @@ class World:
                     c = front(front(c))
                 elif style == "rewrap":
                     c = rewrap(c)
+                elif style == "getonly":
+                    c = getonly(c)
                 elif style != "direct":
                     raise ValueError(style)
                 self.ds.append(dataset(cache=c, defaults=defaults)(body))
@@ -521,6 +567,8 @@ def is_subsequence(a, b):
 def scenario_fields(w, extra):
     """What a replay needs besides (graph, script, history)."""
     out = {"style": w.style}
+    if w.miss:
+        out["miss"] = w.miss
     if extra and extra.get("env"):
         out["env"] = extra["env"]
     if extra and extra.get("phases"):
@@ -750,14 +798,14 @@ def pair_scenarios(ctx, graphs):
             yield g, dict(pre=[], d=top[g], opts=base[g], hold=["body", top[g]], scripts={"A": "", "B": "".join(sb)}, post=[])
     # (2) exhaustive: every behaviour of the first 3 calls of BOTH threads on the one-dataset graph, each hold point
     for hold in (["body", 0], ["call", 1], ["call", 2], None):
-        for sa in itertools.product(KINDS, repeat=2 if quick else 3):
+        for sa in itertools.product(KINDS, repeat=2 if (quick or hold in (["call", 1], ["call", 2])) else 3):
             for sb in itertools.product(KINDS, repeat=3):
                 yield "single", dict(pre=[], d=0, opts=base["single"], hold=hold, scripts={"A": "".join(sa), "B": "".join(sb)},
                                      post=[[False, 0, [list(kv) for kv in base["single"]]]])
     # (3) random: graphs, entries, hold points (a body of the unfolded evaluation / a backend call), warm or cold, scripts,
     #     some under warnings-as-errors, a raising body now and then
     names = list(GRAPHS)
-    for _ in range(500 if quick else 6000):
+    for _ in range(500 if quick else 3000):
         g = rng.choice(names)
         shape = graphs[g]
         hist = gen_history(shape, rng, lo=1, hi=3, p_dis=0.0, p_bad=0.25)
@@ -912,14 +960,16 @@ def more_scenarios(ctx, graphs):
 
 def coq_eval_fallback(ctx, name, prelude, exprs):
     """The comparison happens inside Coq ("=" per agreeing case), so shards can be large; when many
-    cases disagree the printed model lines overflow coqc's stack: retry with small shards."""
+    cases disagree the printed model lines overflow coqc's stack: retry with small shards.
+    Thorough tier: at most 6 coqc processes at a time (each holds 0.45-0.56 GB)."""
+    kw = {} if ctx.quick else {"jobs": 6}
     try:
-        return ctx.coq_eval(name, ["Model.CacheFault", "Model.CacheFaultRun"], prelude, exprs, shard=150)
+        return ctx.coq_eval(name, ["Model.CacheFault", "Model.CacheFaultRun"], prelude, exprs, shard=150 if ctx.quick else 400, **kw)
     except RuntimeError as e:
         if "Stack overflow" not in str(e):
             raise
         lib.log(f"[C17] {name}: many disagreements, re-running the model in small shards")
-        return ctx.coq_eval(name + "s", ["Model.CacheFault", "Model.CacheFaultRun"], prelude, exprs, shard=20)
+        return ctx.coq_eval(name + "s", ["Model.CacheFault", "Model.CacheFaultRun"], prelude, exprs, shard=20, **kw)
 
 
 def new_stats():
@@ -932,18 +982,34 @@ def work(chunk):
     """Run a chunk of scenarios on the implementation (in a worker process)."""
     worlds, ref, viol, stats, out = {}, Reference(), [], new_stats(), []
     for gname, shape, script, hist, extra in chunk:
-        wk = (gname, extra["style"])
+        wk = (gname, extra["style"], extra.get("miss"))
         if wk not in worlds:
-            worlds[wk] = World(shape, style=extra["style"])
+            worlds[wk] = World(shape, style=extra["style"], miss=extra.get("miss"))
         out.append(run_scenario(worlds[wk], gname, script, hist, ref, viol, stats, extra))
     return out, viol, stats, {k: v[2] for k, v in ref.memo.items()}
 
 
-def run(ctx):
-    import multiprocessing
-    import labrea  # noqa: F401  (fail early if the tree under test does not import)
+THOROUGH_BATCH = 40000     # thorough tier: scenarios generated / evaluated / compared with the model per batch (memory bound)
+KEEP_VIOLATIONS = 400      # oracle failures kept between batches (the lightest ones; the count of all of them is kept)
+
+
+def violation_key(v):
+    return lib.stable_hash([v["desc"], v["shape"], v["script"], v["history"], v["evaluation_index"],
+                            v.get("style"), v.get("phases"), v.get("poison"), v.get("env"), v.get("pair"), v.get("miss")])
+
+
+def violation_weight(v):
+    pr = v.get("pair")
+    pw = 0 if not pr else 2 + sum(len(x.rstrip("B")) for x in pr["scripts"].values()) + len(pr.get("pre") or ()) + len(pr.get("post") or ())
+    return (len(v["script"].rstrip("B")) + 3 * len(v.get("phases") or ()) + pw + (1 if v.get("env") else 0),
+            len(v["history"]), v["evaluation_index"])
+
+
+def build_todo(ctx, graphs):
+    """every scenario of the run, in generation order: [(graph name, script, history, label, extra)], stream sizes, two-thread
+    scenarios, number of scenarios drawn before the warnings-as-errors copies.  (Scenario descriptions are small: fixed
+    histories are shared objects; what is large - observations, model questions - is produced per batch in run().)"""
     rng = ctx.rng
-    graphs = dict(GRAPHS)
     streams = {}
     todo = []      # (graph name, script, history, label, extra)
     for g, s, hist, label in scenarios(ctx):
@@ -963,13 +1029,37 @@ def run(ctx):
         todo.append((g, s, hist, label + "+delegating", {"style": STYLES[1 + k % (len(STYLES) - 1)]}))
     for g, s, hist, label, extra in more_scenarios(ctx, graphs):
         todo.append((g, s, hist, label, dict(extra, style=rng.choice(STYLES))))
+    # the class of the miss (and backends inheriting Cache.exists): copies of scenarios above (the model's answer is the same one)
+    import random as _random
+    mrng = _random.Random(ctx.seed * 613 + 17)
+    n_before = len(todo)
+    pool_ix = {}
+    for k in range(n_before):
+        pool_ix.setdefault(todo[k][3], []).append(k)
+    seen3 = {}
+    # per class: every script of the first 3 calls, and of calls 4-6 after a truthful start (one-dataset graph, fixed history)
+    for k in pool_ix.get("exhaustive-6", []) + pool_ix.get("exhaustive-9", []):
+        g, s, hist, label, extra = todo[k]
+        if g == "single" and extra["style"] == "direct" and not s[6:].strip("B") and (s[3:6] == "BBB" or s[:3] == "BBB"):
+            seen3[s[:6]] = (g, s[:6], hist)
+    for m in MISS_CLASSES:
+        for (g, s, hist) in seen3.values():
+            todo.append((g, s, hist, "miss-class-exhaustive-3+3", {"style": "direct", "miss": m}))
+    labels = [lb for lb in pool_ix if not lb.startswith("exhaustive")]
+    for _ in range(1500 if ctx.quick else 6000):
+        g, s, hist, label, extra = todo[mrng.choice(pool_ix[mrng.choice(labels)])]
+        style = mrng.choice(MISS_STYLES)
+        x = dict(extra, style=style, miss=mrng.choice(MISS_CLASSES + (None,) if style == "getonly" else MISS_CLASSES))
+        if style == "getonly":
+            x["oracle_only"] = True
+        todo.append((g, s, hist, "miss-class-random" + ("+getonly" if style == "getonly" else ""), x))
     # part of the scenarios above once more in an interpreter whose warnings are errors (same observation demanded)
     quota = {"exhaustive-6": 4096, "random": 600, "persistent-exhaustive": 1300, "labrea-section-exhaustive-4": 256,
              "window-4": 256, "random-dag": 120, "persistent-random": 300, "labrea-section-random": 150}
-    if not ctx.quick:
-        quota = {k: 10 * v for k, v in quota.items()}
-        quota.update({"exhaustive-7": 20000, "window-5": 5000, "labrea-section-exhaustive-6": 4096})
-    for k in range(len(todo)):
+    if not ctx.quick:       # (bounded: the thorough tier has to fit in ~40 minutes and a few GB on a 16-core machine)
+        quota = {k: 4 * v for k, v in quota.items()}
+        quota.update({"exhaustive-7": 8192, "window-5": 2048, "labrea-section-exhaustive-6": 2048})
+    for k in range(n_before):
         g, s, hist, label, extra = todo[k]
         if quota.get(label, 0) > 0 and (label != "exhaustive-6" or g == "single"):
             quota[label] -= 1
@@ -980,54 +1070,27 @@ def run(ctx):
     pairs = [(g, graphs[g], pair, STYLES[k % len(STYLES)] if k % 3 == 0 else "direct")
              for k, (g, pair) in enumerate(pair_scenarios(ctx, graphs))]
     streams["two-threads-one-entry"] = len(pairs)
+    return todo, streams, pairs
 
-    # --- implementation side (worker processes; results concatenated in generation order)
-    t0 = time.time()
+
+def run(ctx):
+    import multiprocessing
+    import labrea  # noqa: F401  (fail early if the tree under test does not import)
+    graphs = dict(GRAPHS)
     jobs = 12
-    size = max(50, (len(todo) + 4 * jobs - 1) // (4 * jobs))
-    chunks = [[(g, graphs[g], s, h, x) for g, s, h, _, x in todo[k:k + size]] for k in range(0, len(todo), size)]
-    psize = max(50, (len(pairs) + 2 * jobs - 1) // (2 * jobs))
-    pchunks = [pairs[k:k + psize] for k in range(0, len(pairs), psize)]
-    with multiprocessing.get_context("fork").Pool(jobs) as pool:
-        presults_async = pool.map_async(work_pairs, pchunks)
-        results = pool.map(work, chunks)
-        presults = presults_async.get()
-    viol, stats, refs, lines, used, applied = [], new_stats(), {}, [], [], []
-    pair_lines = []
-    for out, v, st in presults:
-        pair_lines += out
-        results.append(([], v, st, {}))
-    for out, v, st, rf in results:
-        lines += [o[0] for o in out]
-        used += [o[1] for o in out]
-        applied += [o[2] for o in out]
-        viol += v
-        refs.update(rf)
-        for k, x in st.items():
-            if isinstance(x, dict):
-                for kk, n in x.items():
-                    stats[k][kk] = stats[k].get(kk, 0) + n
-            else:
-                stats[k] += x
-    # the adversary handed to the model: the scenario's script; for a persistent adversary the behaviour it
-    # actually applied at each backend call of the run (the model's adversary is a function of the call index)
-    cases = [(g, (ap if (x.get("phases") or x.get("poison")) else s), h, line, s, x)
-             for (g, s, h, _, x), line, ap in zip(todo, lines, applied)]
-    distinct, nontrivial = set(), set()
-    for (g, s, h, _, x), u in zip(todo, used):
-        hh = lib.stable_hash([graphs[g], s, hist_json(h), sorted(x.items())])
-        distinct.add(hh)
-        if u:
-            nontrivial.add(hh)
-    for (g, shape, pair, style), (_line, n_faults) in zip(pairs, pair_lines):
-        hh = lib.stable_hash([shape, pair, style])
-        distinct.add(hh)
-        if n_faults:
-            nontrivial.add(hh)
-    lib.log(f"[C17] implementation side: {len(cases)} scenarios, {stats['evaluations']} evaluations in {time.time() - t0:.1f}s")
-    t0 = time.time()
+    # (the worker processes are forked BEFORE the scenarios are generated: they do not carry a copy of the whole list)
+    pool = multiprocessing.get_context("fork").Pool(jobs)
+    try:
+        return _run(ctx, graphs, pool, jobs)
+    finally:
+        pool.terminate()
+        pool.join()
 
-    # --- model side: same graph / script / history
+
+def _run(ctx, graphs, pool, jobs):
+    todo, streams, pairs = build_todo(ctx, graphs)
+
+    # --- the model's view of the graphs and of the fixed histories (shared by every batch)
     prelude = []
     gdef = {}
     for i, (g, shape) in enumerate(graphs.items()):
@@ -1038,31 +1101,132 @@ def run(ctx):
         for g, hist in table.items():
             hdef[id(hist)] = f"lv_h{tag}_{g}"
             prelude.append(f"Definition lv_h{tag}_{g} := {coq_hist(hist)}.")
-    exprs, expr_ix, case_expr = [], {}, []      # identical questions (same scenario behind another backend object) asked once
-    for g, s, hist, line, _s0, _x in cases:
-        hx = hdef.get(id(hist)) or coq_hist(hist)
-        impl = "[" + "; ".join(f'"{x}"' for x in line.split("/")) + "]"
-        e = f"agree_hist {gdef[g]} {coq_script(s)} {hx} {impl}"
-        if e not in expr_ix:
-            expr_ix[e] = len(exprs)
-            exprs.append(e)
-        case_expr.append(expr_ix[e])
-    uverdicts = coq_eval_fallback(ctx, "Cases_C17", "\n".join(prelude), exprs)
-    verdicts = [uverdicts[i] for i in case_expr]
-    bad = [k for k, v in enumerate(verdicts) if v != "="]
-    n_mism = len(bad)
-    mism = []
-    if bad:   # the model's full observation for the first few disagreeing scenarios
-        full = ctx.coq_eval("Diff_C17", ["Model.CacheFault", "Model.CacheFaultRun"], "\n".join(prelude),
-                            [f"observe {gdef[cases[k][0]]} {coq_script(cases[k][1])} {coq_hist(cases[k][2])}" for k in bad[:5]],
-                            shard=5)
-        for k, ml in zip(bad[:5], full):
-            g, s, hist, line, s0, x = cases[k]
-            mism.append(dict(where="Model/CacheFault.v vs labrea.cache/labrea.dataset behind a scripted Cache subclass",
-                             scenario=dict(graph=g, shape=graphs[g], script=s0, history=hist_json(hist), applied_script=s,
-                                           **{kk: vv for kk, vv in x.items() if vv}),
-                             first_differing_evaluation=int(verdicts[k].split("#")[0]),
-                             impl=line.split("/"), model=ml.split("/")))
+    prelude = "\n".join(prelude)
+
+    # --- batches: implementation side (worker processes; results in generation order), then the model on the same
+    # graph / script / history.  The quick tier is ONE batch; the thorough tier keeps only counters, hashes, the lightest
+    # oracle failures and the first disagreements between batches.
+    bsize = len(todo) if ctx.quick else THOROUGH_BATCH
+    viol, stats, refs = [], new_stats(), {}
+    n_viol = 0
+    distinct, nontrivial = set(), set()
+    verdict_of = {}        # hash of a model question -> verdict (identical questions - same scenario behind another backend object - asked once)
+    n_cases = n_exprs = n_mism = 0
+    mism, samples = [], []
+    t_impl = t_model = 0.0
+
+    def trim(vs):
+        seen, uniq = set(), []
+        for v in vs:
+            hh = violation_key(v)
+            if hh not in seen:
+                seen.add(hh)
+                uniq.append(v)
+        uniq.sort(key=violation_weight)
+        return uniq
+
+    if True:
+        presults_async = None
+        if pairs:
+            psize = max(50, (len(pairs) + 2 * jobs - 1) // (2 * jobs))
+            presults_async = pool.map_async(work_pairs, [pairs[k:k + psize] for k in range(0, len(pairs), psize)])
+        for bi, b0 in enumerate(range(0, len(todo), max(1, bsize))):
+            part = todo[b0:b0 + bsize]
+            t0 = time.time()
+            size = max(50, (len(part) + 4 * jobs - 1) // (4 * jobs))
+            chunks = [[(g, graphs[g], s, h, x) for g, s, h, _, x in part[k:k + size]] for k in range(0, len(part), size)]
+            results = pool.map(work, chunks)
+            del chunks
+            lines, used, applied = [], [], []
+            for out, v, st, rf in results:
+                lines += [o[0] for o in out]
+                used += [o[1] for o in out]
+                applied += [o[2] for o in out]
+                n_viol += len(v)
+                viol += v
+                refs.update(rf)
+                for k, x in st.items():
+                    if isinstance(x, dict):
+                        for kk, n in x.items():
+                            stats[k][kk] = stats[k].get(kk, 0) + n
+                    else:
+                        stats[k] += x
+            del results
+            if not ctx.quick:
+                viol = trim(viol)[:KEEP_VIOLATIONS]
+            # the adversary handed to the model: the scenario's script; for a persistent adversary the behaviour it
+            # actually applied at each backend call of the run (the model's adversary is a function of the call index)
+            cases = [(g, (ap if (x.get("phases") or x.get("poison")) else s), h, line, s, x)
+                     for (g, s, h, _, x), line, ap in zip(part, lines, applied) if not x.get("oracle_only")]
+            for (g, s, h, _, x), u in zip(part, used):
+                hh = lib.stable_hash([graphs[g], s, hist_json(h), sorted(x.items())])
+                distinct.add(hh)
+                if u:
+                    nontrivial.add(hh)
+            t_impl += time.time() - t0
+            t0 = time.time()
+            exprs, expr_ix, case_key = [], {}, []
+            for g, s, hist, line, _s0, _x in cases:
+                hx = hdef.get(id(hist)) or coq_hist(hist)
+                impl = "[" + "; ".join(f'"{x}"' for x in line.split("/")) + "]"
+                e = f"agree_hist {gdef[g]} {coq_script(s)} {hx} {impl}"
+                key = e if ctx.quick else lib.stable_hash(e)
+                if key not in verdict_of and key not in expr_ix:
+                    expr_ix[key] = len(exprs)
+                    exprs.append(e)
+                case_key.append(key)
+            uverdicts = coq_eval_fallback(ctx, "Cases_C17" if bi == 0 else f"Cases_C17_b{bi}", prelude, exprs) if exprs else []
+            for key, i in expr_ix.items():
+                verdict_of[key] = uverdicts[i]
+            n_exprs += len(exprs)
+            del exprs, expr_ix
+            verdicts = [verdict_of[key] for key in case_key]
+            bad = [k for k, v in enumerate(verdicts) if v != "="]
+            n_mism += len(bad)
+            n_cases += len(cases)
+            if bad and len(mism) < 5:   # the model's full observation for the first few disagreeing scenarios
+                take = bad[:5 - len(mism)]
+                full = ctx.coq_eval("Diff_C17" if bi == 0 else f"Diff_C17_b{bi}", ["Model.CacheFault", "Model.CacheFaultRun"], prelude,
+                                    [f"observe {gdef[cases[k][0]]} {coq_script(cases[k][1])} {coq_hist(cases[k][2])}" for k in take],
+                                    shard=5)
+                for k, ml in zip(take, full):
+                    g, s, hist, line, s0, x = cases[k]
+                    mism.append(dict(where="Model/CacheFault.v vs labrea.cache/labrea.dataset behind a scripted Cache subclass",
+                                     scenario=dict(graph=g, shape=graphs[g], script=s0, history=hist_json(hist), applied_script=s,
+                                                   **{kk: vv for kk, vv in x.items() if vv}),
+                                     first_differing_evaluation=int(verdicts[k].split("#")[0]),
+                                     impl=line.split("/"), model=ml.split("/")))
+            if len(samples) < 4 and cases:
+                step = max(1, len(cases) // 4)
+                samples += [dict(graph=c[0], shape=graphs[c[0]], script=c[4], history=hist_json(c[2]), observation=c[3],
+                                 **{kk: vv for kk, vv in c[5].items() if vv})
+                            for c in cases[step // 2::step][:4 - len(samples)]]
+            t_model += time.time() - t0
+            if not ctx.quick:
+                lib.log(f"[C17] batch {bi}: {len(part)} scenarios ({b0 + len(part)}/{len(todo)}), {len(cases)} compared with the model, "
+                        f"{n_mism} disagreements, {n_viol} oracle failures so far")
+            del cases, lines, used, applied, verdicts, case_key
+        pair_lines = []
+        if presults_async is not None:
+            presults = presults_async.get()
+            pair_lines = [x for out, _, _ in presults for x in out]
+            for out, v, st in presults:
+                n_viol += len(v)
+                viol += v
+                for k, x in st.items():
+                    if isinstance(x, dict):
+                        for kk, n in x.items():
+                            stats[k][kk] = stats[k].get(kk, 0) + n
+                    else:
+                        stats[k] += x
+    for (g, shape, pair, style), (_line, n_faults) in zip(pairs, pair_lines):
+        hh = lib.stable_hash([shape, pair, style])
+        distinct.add(hh)
+        if n_faults:
+            nontrivial.add(hh)
+    lib.log(f"[C17] implementation side: {len(todo)} scenarios, {stats['evaluations']} evaluations in {t_impl:.1f}s")
+    lib.log(f"[C17] model side: {n_exprs} vm_compute cases ({n_cases} scenarios) in {t_model:.1f}s")
+    t0 = time.time()
 
     # --- the cache-free yardstick itself against the model's refv/ref_runs
     ref_exprs, ref_lines = [], []
@@ -1070,7 +1234,7 @@ def run(ctx):
         ref_lines.append((g, d, opts, line))
         ol = "[" + "; ".join(f"({k}, {v})" for k, v in opts) + "]%N"
         ref_exprs.append(f'agree (observe_ref {gdef[g]} {d}%N {ol}) "{line}"')
-    ref_model = coq_eval_fallback(ctx, "Ref_C17", "\n".join(prelude), ref_exprs) if ref_exprs else []
+    ref_model = coq_eval_fallback(ctx, "Ref_C17", prelude, ref_exprs) if ref_exprs else []
     for (g, d, opts, line), ml in zip(ref_lines, ref_model):
         if ml != "=":
             n_mism += 1
@@ -1078,28 +1242,10 @@ def run(ctx):
                 mism.append(dict(where="Model refv/ref_runs vs a fresh graph under labrea.cache.disabled()",
                                  scenario=dict(graph=g, shape=graphs[g], dataset=d, options=[list(kv) for kv in opts]),
                                  impl=line, model=ml))
-    lib.log(f"[C17] model side: {len(exprs) + len(ref_exprs)} vm_compute cases ({len(cases)} scenarios) in {time.time() - t0:.1f}s")
+    lib.log(f"[C17] reference side: {len(ref_exprs)} vm_compute cases in {time.time() - t0:.1f}s")
 
-    seen, uniq = set(), []
-    for v in viol:
-        hh = lib.stable_hash([v["desc"], v["shape"], v["script"], v["history"], v["evaluation_index"],
-                              v.get("style"), v.get("phases"), v.get("poison"), v.get("env"), v.get("pair")])
-        if hh not in seen:
-            seen.add(hh)
-            uniq.append(v)
-    viol = uniq
-    def pair_weight(v):
-        pr = v.get("pair")
-        if not pr:
-            return 0
-        return 2 + sum(len(x.rstrip("B")) for x in pr["scripts"].values()) + len(pr.get("pre") or ()) + len(pr.get("post") or ())
-    viol.sort(key=lambda v: (len(v["script"].rstrip("B")) + 3 * len(v.get("phases") or ()) + pair_weight(v) + (1 if v.get("env") else 0),
-                             len(v["history"]), v["evaluation_index"]))
+    viol = trim(viol)
     violations = [dict(v, finding=None) for v in viol[:50]]
-    step = max(1, len(cases) // 4)
-    samples = [dict(graph=c[0], shape=graphs[c[0]], script=c[4], history=hist_json(c[2]), observation=c[3],
-                    **{kk: vv for kk, vv in c[5].items() if vv})
-               for c in cases[step // 2::step][:4]]
     nx = (6, 6, 0, 0) if ctx.quick else EXH_THOROUGH
     return {
         "evaluations": stats["evaluations"],
@@ -1110,13 +1256,13 @@ def run(ctx):
                 "(graph shape, script, history, style, phases, payload losses); "
                 "non-trivial when at least one non-behave script entry was actually consumed by a backend call",
         "samples": samples,
-        "traces_validated_against_impl": len(cases) + len(ref_lines),
+        "traces_validated_against_impl": n_cases + len(ref_lines),
         "correspondence_mismatches": mism,
         "violations": violations,
         "known": [],
-        "distribution": dict(streams=streams, scenarios=len(cases), distinct=len(distinct),
+        "distribution": dict(streams=streams, scenarios=n_cases, distinct=len(distinct),
                              reference_questions=len(ref_lines), mismatches=n_mism,
-                             oracle_violations=len(viol), **stats),
+                             oracle_violations=n_viol if not ctx.quick else len(viol), **stats),
         "exhaustive": True,
         "assumptions": [
             "EXHAUSTIVE for: every assignment of {behave, miss, lie-exists, fail-get} to the first N backend calls of the "
@@ -1135,6 +1281,10 @@ def run(ctx):
             "make exists() True and get() fail for the stored entries until they are rewritten) are run on the implementation with a "
             "budget of 40*(dataset evaluations of the cache-free run)+40 backend calls per evaluation: exceeding it is reported as "
             "'did not return'; the model is asked about the call-indexed adversary that the run actually applied",
+            "the class of a miss: CacheGetFailure, a user subclass, or a user subclass also deriving from a builtin exception class "
+            "(MISS_CLASSES, both base orders for some), on copies of scenarios of the streams above (streams miss-class-*), behind every "
+            "backend style and behind a delegating backend that inherits Cache.exists (style getonly: exists = try get; the adversary's "
+            "letters then all apply to get calls; oracle only); the model does not distinguish them (same observation demanded)",
             "the backend follows the Cache contract: get returns only what was set for that fingerprint or raises CacheGetFailure; "
             "set/exists never raise (CacheSetFailure / CacheExistsFailure are outside the four behaviours of the property)",
             "fingerprint soundness (equal fingerprints => equal cache-free result) is proved here only for this graph language "
@@ -1162,8 +1312,9 @@ def replay(ctx, payload):
     hist = hist_from_json(v["history"])
     script = v["script"]
     gname = v.get("graph", "replayed")
-    extra = {"style": v.get("style", "direct"), "phases": v.get("phases"), "poison": v.get("poison"), "env": v.get("env")}
-    w = World(shape, style=extra["style"])
+    extra = {"style": v.get("style", "direct"), "phases": v.get("phases"), "poison": v.get("poison"), "env": v.get("env"),
+             "miss": v.get("miss")}
+    w = World(shape, style=extra["style"], miss=extra["miss"])
     ref = Reference()
     viol = []
     stats = new_stats()
@@ -1175,11 +1326,18 @@ def replay(ctx, payload):
                             "oracle_violations": [dict(desc=x["desc"], evaluation_index=x["evaluation_index"], got=x["got"], want=x["want"])
                                                   for x in viol[:3]]}
     line, _, applied = run_scenario(w, gname, script, hist, ref, viol, stats, extra)
+    if extra["style"] == "getonly":      # the backend inherits Cache.exists: no exists calls in its log, outside the model's call language
+        return bool(viol), {"graph": gname, "shape": v["shape"], "script": script, "history": v["history"], "backend_style": "getonly",
+                            "miss_class": extra["miss"], "phases": extra["phases"], "poison": extra["poison"], "impl": line.split("/"),
+                            "model": "not modelled (no exists calls reach the scripted store)",
+                            "oracle_violations": [dict(desc=x["desc"], evaluation_index=x["evaluation_index"], got=x["got"], want=x["want"])
+                                                  for x in viol[:3]]}
     mscript = applied if (extra["phases"] or extra["poison"]) else script
     ml = ctx.coq_eval("Replay_C17", ["Model.CacheFault", "Model.CacheFaultRun"], "",
                       [f"observe {coq_shape(shape)} {coq_script(mscript)} {coq_hist(hist)}"])[0]
     detail = {"graph": gname, "shape": v["shape"], "script": script, "history": v["history"],
-              "backend_style": extra["style"], "phases": extra["phases"], "poison": extra["poison"], "environment": extra["env"],
+              "backend_style": extra["style"], "miss_class": extra["miss"], "phases": extra["phases"], "poison": extra["poison"],
+              "environment": extra["env"],
               "impl": line.split("/"), "model": ml.split("/"),
               "oracle_violations": [dict(desc=x["desc"], evaluation_index=x["evaluation_index"], got=x["got"], want=x["want"])
                                     for x in viol[:3]]}
